@@ -56,6 +56,10 @@
 /// Four-word identifier system
 pub mod fwid;
 
+/// Deterministic-simulation seams (only with feature `verif-hooks`)
+#[cfg(feature = "verif-hooks")]
+pub mod verif_hooks;
+
 /// Prelude module for convenient imports
 ///
 /// Use `use saorsa_core::prelude::*;` to import commonly used types.
